@@ -11,6 +11,7 @@ import (
 	"gitlab.com/aquachain/aquachain/params"
 	"gitlab.com/aquachain/aquachain/rlp"
 	"verif/internal/fw"
+	"verif/internal/ref/refhash"
 	"verif/internal/ref/refrlp"
 	"verif/internal/ref/refsig"
 )
@@ -527,7 +528,7 @@ func foreignSigners(r *fw.Rand, s sgn) []sgn {
 		c = big.NewInt(3)
 	}
 	cand := []*big.Int{new(big.Int).Add(c, big.NewInt(1)), new(big.Int).Sub(c, big.NewInt(1)),
-		new(big.Int).Add(c, big.NewInt(27)), new(big.Int).Add(c, big.NewInt(28)), new(big.Int).Sub(c, big.NewInt(27)), new(big.Int).Sub(c, big.NewInt(28)), new(big.Int).Add(c, two64), new(big.Int).Add(c, bigPow2(63)),
+		new(big.Int).Add(c, big.NewInt(27)), new(big.Int).Add(c, big.NewInt(28)), new(big.Int).Sub(c, big.NewInt(27)), new(big.Int).Sub(c, big.NewInt(28)), new(big.Int).Add(c, two64), new(big.Int).Sub(c, two64), new(big.Int).Add(c, bigPow2(63)),
 		new(big.Int).Mod(c, two64), new(big.Int).Mod(c, big.NewInt(256)), new(big.Int).Add(c, big.NewInt(128)), new(big.Int).Lsh(c, 1), big.NewInt(0), big.NewInt(1), big.NewInt(3),
 		new(big.Int).SetUint64(r.Uint64()), new(big.Int).Set(c)}
 	out := []sgn{{Kind: kFrontier}, {Kind: kHomestead}}
@@ -890,6 +891,9 @@ func signCase(c *fw.Ctx, id string, in caseIn, s sgn, d, k *big.Int, content *re
 		e.judge("Sender", m.field, m.m)
 	}
 
+	// 5b. decoding into an object that already answered for another transaction
+	e.reuseChecks(signed, o, want, ms)
+
 	// 6. single-bit flips of the wire form
 	e.bitFlips(r, in.Full)
 
@@ -914,6 +918,20 @@ func signCase(c *fw.Ctx, id string, in caseIn, s sgn, d, k *big.Int, content *re
 			break
 		}
 		e.judgeForeign(fs, tx, o, "original")
+		if prot && fs.Kind == kEIP155 && fs.Chain.Sign() > 0 {
+			// cross-chain replay: R,S untouched, V rewritten to the other chain's
+			// encoding, asked of that chain's signer. Its signing hash contains its
+			// own chain id, so the original signer must not come out.
+			m := o.Copy()
+			m.V = refsig.VFor(fs.Chain, recid)
+			if rtx, err := realTx(m); err == nil {
+				c.Count("v_rewritten_replay_probed")
+				e.decided++
+				if from, err := types.Sender(fs.real(), rtx); err == nil && [20]byte(from) == exp {
+					c.Violate("foreign_chain_attribution", "Sender", "v_rewritten:eip155_other_chain", fmt.Sprintf("transaction signed for %s with V rewritten to %s is attributed to its signer %x under %s; rlp %x", s, m.V, from, fs, m.Encode()))
+				}
+			}
+		}
 		if tw, err := realTx(twin); err == nil {
 			e.judgeForeign(fs, tw, twin, "high_s_twin")
 		}
@@ -984,4 +1002,107 @@ func (e *env) judgeForeign(fs sgn, tx *types.Transaction, m *refsig.Tx, name str
 		return
 	}
 	c.Count("foreign_signer_same_sender")
+}
+
+// reuseChecks: a Transaction value that already answered Hash/Size/Sender for
+// one transaction is reused as the destination of a decode of another one (a
+// variable filled from a stream, a pooled object). What it then says about hash
+// and sender must be about the new content.
+func (e *env) reuseChecks(signed *types.Transaction, o *refsig.Tx, want senderRes, ms []mutant) {
+	c := e.c
+	h0 := signed.Hash()
+	js, err := signed.MarshalJSON()
+	if err != nil {
+		return
+	}
+	// a content mutant with the signature untouched that both codecs can carry
+	var other *mutant
+	var otherJS []byte
+	for i := range ms {
+		m := &ms[i]
+		switch m.field {
+		case "value", "nonce", "gas_price", "gas_limit", "recipient", "data":
+		default:
+			continue
+		}
+		if sameContent(m.m, o) {
+			continue
+		}
+		t, err := realTx(m.m)
+		if err != nil {
+			continue
+		}
+		j, err := t.MarshalJSON()
+		if err != nil {
+			continue
+		}
+		var probe types.Transaction
+		if probe.UnmarshalJSON(j) != nil {
+			continue // e.g. a value of 257 bits: not expressible in the JSON form
+		}
+		other, otherJS = m, j
+		break
+	}
+	if other == nil {
+		c.Count("reuse_no_carrier_mutant")
+		return
+	}
+	otherEnc := other.m.Encode()
+	otherHash := other.m.Hash()
+	prime := func(enc []byte) *types.Transaction {
+		d, err := decodeReal(enc)
+		if err != nil {
+			return nil
+		}
+		_ = d.Hash()
+		_ = d.Size()
+		_ = querySender(e.signer, d)
+		return d
+	}
+	type codec struct {
+		name   string
+		decode func(d *types.Transaction, js, enc []byte) error
+	}
+	codecs := []codec{
+		{"json_into_used_object", func(d *types.Transaction, js, enc []byte) error { return d.UnmarshalJSON(js) }},
+		{"json_into_used_object", func(d *types.Transaction, js, enc []byte) error { return json.Unmarshal(js, d) }},
+		{"rlp_into_used_object", func(d *types.Transaction, js, enc []byte) error { return rlp.DecodeBytes(enc, d) }},
+	}
+	for _, cd := range codecs {
+		// (a) slot primed with the mutant, then the signed transaction decoded over it
+		if d := prime(otherEnc); d != nil {
+			if err := cd.decode(d, js, e.origEnc); err != nil {
+				c.Violate("reencoding_failed", "Decode", "signed:"+cd.name, err.Error())
+			} else {
+				c.Count(strings.SplitN(cd.name, "_", 2)[0] + "_decode_into_used")
+				if h := d.Hash(); h != h0 {
+					c.Violate("hash_changed_by_reencoding", "Hash", "signed:"+cd.name, fmt.Sprintf("object primed with %x then decoded from the signed transaction says hash %x, the transaction's hash is %x", otherEnc, h, h0))
+				}
+				if enc, err := rlp.EncodeToBytes(d); err == nil {
+					if h := d.Hash(); !bytes.Equal(h[:], refhash.Keccak256(enc)) {
+						c.Violate("hash_changed_by_reencoding", "Hash", "signed:"+cd.name+":not_hash_of_own_encoding", fmt.Sprintf("Hash() %x is not the hash of the object's own encoding %x", h, enc))
+					}
+				}
+				if got := querySender(e.signer, d); got != want {
+					c.Violate("sender_changed_by_reencoding", "Sender", "signed:"+cd.name, fmt.Sprintf("object primed with %x then decoded from the signed transaction: sender %s, signer is %s", otherEnc, got, want))
+				}
+				if msg, err := d.AsMessage(e.signer); err != nil || [20]byte(msg.From()) != e.exp {
+					c.Violate("sender_changed_by_reencoding", "AsMessage", "signed:"+cd.name, fmt.Sprintf("AsMessage from %x err %v, signer is %x", msg.From(), err, e.exp))
+				}
+			}
+		}
+		// (b) slot primed with the signed transaction, then a content mutant
+		// (signature untouched) decoded over it: the existing mutant oracle
+		if d := prime(e.origEnc); d != nil {
+			if err := cd.decode(d, otherJS, otherEnc); err != nil {
+				c.Violate("reencoding_failed", "Decode", "mutant:"+cd.name, err.Error())
+				continue
+			}
+			c.Count(strings.SplitN(cd.name, "_", 2)[0] + "_decode_into_used")
+			if h := d.Hash(); !bytes.Equal(h[:], otherHash) {
+				c.Violate("hash_changed_by_reencoding", "Hash", "mutant:"+cd.name, fmt.Sprintf("object primed with the signed transaction then decoded from mutant %q says hash %x, the mutant's hash is %x", other.field, h, otherHash))
+			}
+			e.judgeReal("Sender", other.field+":"+cd.name, e.s, e.signer, d, other.m)
+		}
+	}
 }
